@@ -375,7 +375,8 @@ func objectProp(rt *rapid.T, rec *ev.Rec) {
 		if rec.Violation(sig, what, c) {
 			return
 		}
-		rt.Fatalf("%s", what)
+		rt.Logf("%s", what)
+		rt.Fatalf("C04 violated: %s", sig)
 	}
 	d := vals.Depth(o)
 	rec.Class(fmt.Sprintf("object-depth:%d", d))
